@@ -322,6 +322,7 @@ def run_batch(job):
     """job = (mode, batch_index, first_index, [cfg dicts], options)"""
     mode, bi, first, cfgds, opts = job
     res = BatchResult()
+    res.batch_index = bi
     z3.set_param("smt.random_seed", 0)
     cfgs = [kernels.cfg_from_dict(d) for d in cfgds]
     res.configs = len(cfgs)
@@ -367,8 +368,24 @@ def run_all(mode, cfgs, opts=None, batch=120):
     for bi, s in enumerate(range(0, len(cfgs), batch)):
         jobs.append((mode, bi, s, [c.as_dict() for c in cfgs[s:s + batch]], opts or {}))
     total = BatchResult()
-    with multiprocessing.Pool(common.ncpu()) as pool:
-        for r in pool.imap_unordered(run_batch, jobs):
+    # watchdog: z3 does not always honour its timeout inside preprocessing; if no batch finishes for `stall_s`
+    # seconds the batches still outstanding are reported as inconclusive and their workers are terminated
+    stall_s = int(os.environ.get("VERIF_STALL_S", "1500"))
+    pending = {j[1]: j for j in jobs}
+    pool = multiprocessing.Pool(common.ncpu())
+    try:
+        it = pool.imap_unordered(run_batch, jobs)
+        while pending:
+            try:
+                r = it.next(timeout=stall_s)
+            except multiprocessing.TimeoutError:
+                for bi, j in sorted(pending.items()):
+                    total.unknown.append("batch %d (%s, configurations %d..%d) did not finish within %d s without progress: "
+                                         "solver call not interruptible" % (bi, mode, j[2], j[2] + len(j[3]) - 1, stall_s))
+                break
+            except StopIteration:
+                break
+            pending.pop(getattr(r, "batch_index", None), None)
             for k in ("configs", "functions", "instrs", "queries", "unsat", "sat_expected", "solver_s", "compile_s",
                       "controls_fired", "controls_total", "witnesses"):
                 setattr(total, k, getattr(total, k) + getattr(r, k))
@@ -380,6 +397,9 @@ def run_all(mode, cfgs, opts=None, batch=120):
                 total.obligation_sites[k] = total.obligation_sites.get(k, 0) + v
             if len(total.samples) < 8:
                 total.samples += r.samples[:2]
+    finally:
+        pool.terminate()
+        pool.join()
     return total
 
 
